@@ -746,14 +746,18 @@ pub fn anytext(rng: &mut Rng, count: u64, emit: Emit) {
                 }
                 6 => {
                     let pos = rng.below(bytes.len() as u64) as usize;
-                    let junk: &[u8] = *rng.pick(&[&b"\xff"[..], &b"\xc3"[..], &b"\xe2\x82"[..], &b"\xc3\xa9"[..], &b"\xf0\x9f\x98\x80"[..], &b"\x00"[..]][..]);
+                    let junk: &[u8] = *rng.pick(&[&b"\xff"[..], &b"\xc3"[..], &b"\xe2\x82"[..], &b"\xc3\xa9"[..], &b"\xf0\x9f\x98\x80"[..], &b"\x00"[..],
+                        &b"\xc2\xa0"[..], &b"\xe2\x80\xa8"[..], &b"\xe3\x80\x80"[..], &b"\xc2\x85"[..]][..]);
                     for (j, b) in junk.iter().enumerate() { bytes.insert(pos + j, *b); }
                     if rng.chance(1, 2) { bytes.truncate(pos + junk.len()); }
                     how = String::from("non-ascii-or-invalid-utf8");
                 }
                 _ => {
                     // end inside a literal, a comment or a multi-byte character
-                    let tail: &[u8] = *rng.pick(&[&b" x = 0x"[..], &b" x = 0b"[..], &b" /* never closed"[..], &b" x = 12"[..], &b" # c"[..], &b" x = \xe2\x82"[..], &b" x = y\xe2\x82\xac"[..], &b" /"[..], &b" ."[..]][..]);
+                    let tail: &[u8] = *rng.pick(&[&b" x = 0x"[..], &b" x = 0b"[..], &b" /* never closed"[..], &b" x = 12"[..], &b" # c"[..], &b" x = \xe2\x82"[..], &b" x = y\xe2\x82\xac"[..], &b" /"[..], &b" ."[..],
+                        // an unfinished statement followed by blanks of more than one byte, a comment, or nothing
+                        &b" x = 1 +\xc2\xa0\n\n"[..], &b" x = 1 +\xe2\x80\xa8 \n"[..], &b" x = (\xe3\x80\x80  "[..], &b" wire q\xc2\xa0\xc2\xa0"[..],
+                        &b" x = [ 1 : 2;\xc2\x85\n"[..], &b" register qR {\n  a : 8 = 0\n"[..], &b" x = 1 + # c\n\n"[..], &b" x = 1 + /* c */ \n"[..]][..]);
                     bytes.extend_from_slice(tail);
                     how = String::from("ends-inside-a-token");
                 }
